@@ -16,6 +16,7 @@ import (
 	"math/rand"
 	"os"
 	"path/filepath"
+	"sort"
 	"strconv"
 
 	ds "github.com/ipfs/go-datastore"
@@ -415,9 +416,49 @@ var decoderNames = map[byte]string{decGobHeader: "Cache[SignedHeader].LoadFromDi
 
 var cacheFiles = []string{"items_by_height.gob", "items_by_hash.gob", "hashes.gob", "da_included.gob"}
 
+// gobSeeds holds the files a one-item cache of each kind consists of - whatever files SaveToDisk writes (today four per
+// cache; the names and the number are the cache's own business).
 type gobSeeds struct {
-	header [4][]byte
-	data   [4][]byte
+	hNames, dNames []string
+	header, data   [][]byte
+}
+
+// listCacheDir returns the regular files of a saved cache directory: first the ones of today's layout in the order
+// of cacheFiles, then any others by name.
+func listCacheDir(dir string) (names []string, contents [][]byte, err error) {
+	ents, err := os.ReadDir(dir)
+	if err != nil {
+		return nil, nil, err
+	}
+	have := map[string]bool{}
+	for _, e := range ents {
+		if e.Type().IsRegular() {
+			have[e.Name()] = true
+		}
+	}
+	for _, f := range cacheFiles {
+		if have[f] {
+			names = append(names, f)
+			delete(have, f)
+		}
+	}
+	var rest []string
+	for f := range have {
+		rest = append(rest, f)
+	}
+	sort.Strings(rest)
+	names = append(names, rest...)
+	for _, f := range names {
+		b, err := os.ReadFile(filepath.Join(dir, f))
+		if err != nil {
+			return nil, nil, err
+		}
+		contents = append(contents, b)
+	}
+	if len(names) == 0 {
+		return nil, nil, fmt.Errorf("SaveToDisk left no file in %s", dir)
+	}
+	return names, contents, nil
 }
 
 func makeGobSeeds(dir string) (*gobSeeds, error) {
@@ -440,14 +481,12 @@ func makeGobSeeds(dir string) (*gobSeeds, error) {
 	if err := dc.SaveToDisk(dd); err != nil {
 		return nil, err
 	}
-	for i, f := range cacheFiles {
-		var err error
-		if gs.header[i], err = os.ReadFile(filepath.Join(hd, f)); err != nil {
-			return nil, err
-		}
-		if gs.data[i], err = os.ReadFile(filepath.Join(dd, f)); err != nil {
-			return nil, err
-		}
+	var err error
+	if gs.hNames, gs.header, err = listCacheDir(hd); err != nil {
+		return nil, err
+	}
+	if gs.dNames, gs.data, err = listCacheDir(dd); err != nil {
+		return nil, err
 	}
 	return gs, nil
 }
@@ -464,10 +503,11 @@ func readGobMap[K comparable, V any](path string) (map[K]V, error) {
 }
 
 // gobCase loads a cache directory in which one file was replaced by the mutated bytes.
-func gobCase[T any](dir string, files [4][]byte, which int, mutated []byte, diff func(a, b *T) string) (bool, string) {
+func gobCase[T any](dir string, names []string, files [][]byte, which int, mutated []byte, diff func(a, b *T) string) (bool, string) {
 	in, out := filepath.Join(dir, "in"), filepath.Join(dir, "out")
+	_ = os.RemoveAll(in)
 	_ = os.MkdirAll(in, 0o755)
-	for i, f := range cacheFiles {
+	for i, f := range names {
 		content := files[i]
 		if i == which {
 			content = mutated
@@ -673,6 +713,11 @@ func childDecoders(args []string) int {
 		if isGob {
 			gobData = gobRng.Intn(2) == 0
 			gobWhich = []int{0, 0, 0, 2, 3, 1}[gobRng.Intn(6)]
+			names := gs.hNames
+			if gobData {
+				names = gs.dNames
+			}
+			gobWhich %= len(names)
 			base := gs.header[gobWhich]
 			if gobData {
 				base = gs.data[gobWhich]
@@ -685,7 +730,7 @@ func childDecoders(args []string) int {
 				b, name = gc.mutate(b, "gob", 1)
 				mut += name + " "
 			}
-			in = input{Bytes: b, Class: "cachefile:" + cacheFiles[gobWhich], Mut: mut, Verbatim: bytes.Equal(b, base)}
+			in = input{Bytes: b, Class: "cachefile:" + names[gobWhich], Mut: mut, Verbatim: bytes.Equal(b, base)}
 		} else {
 			in = c.next()
 		}
@@ -729,11 +774,11 @@ func childDecoders(args []string) int {
 		if isGob {
 			if gobData {
 				run(decGobData, decoderNames[decGobData], func() (bool, string) {
-					return gobCase[types.Data](gobDir, gs.data, gobWhich, in.Bytes, func(a, b *types.Data) string { return firstDiff(diffData(specOfData(a), specOfData(b))) })
+					return gobCase[types.Data](gobDir, gs.dNames, gs.data, gobWhich, in.Bytes, func(a, b *types.Data) string { return firstDiff(diffData(specOfData(a), specOfData(b))) })
 				})
 			} else {
 				run(decGobHeader, decoderNames[decGobHeader], func() (bool, string) {
-					return gobCase[types.SignedHeader](gobDir, gs.header, gobWhich, in.Bytes, func(a, b *types.SignedHeader) string {
+					return gobCase[types.SignedHeader](gobDir, gs.hNames, gs.header, gobWhich, in.Bytes, func(a, b *types.SignedHeader) string {
 						return firstDiff(diffSignedHeader(specOfSignedHeader(a), specOfSignedHeader(b)))
 					})
 				})
